@@ -339,6 +339,11 @@ func (g *G) GenPoolMgmtOp(universe []*RuleDef, cur SetModel, ver *int, kinds []i
 	case OpSetEM:
 		o.EM = g.Range(0, 5)
 	}
+	if o.Kind == OpRemove && len(o.Names) > 0 && g.Pct(25) {
+		for k := g.Range(1, 2); k > 0; k-- {
+			o.Names = append(o.Names, o.Names[g.Intn(len(o.Names))])
+		}
+	}
 	return o
 }
 
